@@ -39,6 +39,7 @@ Inductive obj :=
      (fs : list field)               (* __attrs_attrs__, in order *)
      (attrs : list (string * oid))   (* attributes that are currently set *)
 | OL (items : list oid)
+| OT (items : list oid)              (* tuple: "(a, b)", "(a,)"; same Py_Repr guard, marker "(...)" *)
 | OD (items : list (oid * oid))
 | OS (r : string).                   (* scalar with a fixed repr string *)
 
@@ -158,6 +159,9 @@ Definition compile (h : heap) (o : oid) : option compiled :=
   | None => None
   | Some (OS s) => Some (CScalar s)
   | Some (OL items) => Some (CSeq GCont "[...]" (PLit "[" :: list_parts items true ++ [PLit "]"]))
+  | Some (OT items) =>
+      Some (CSeq GCont "(...)" (PLit "(" :: list_parts items true
+                                  ++ [PLit (match items with [_] => ",)" | _ => ")" end)]))
   | Some (OD items) => Some (CSeq GCont "{...}" (PLit "{" :: dict_parts items true ++ [PLit "}"]))
   | Some (OI qn _ _ fs attrs) =>
       Some (CSeq GInst "..." (instantiate (make_repr_script fs) qn attrs))
